@@ -10,6 +10,10 @@ CHECKS = {
  # id: (category, technique, text, design_ref)
  "C02": ("exploration", "deterministic simulation: seeded schedule search over real threads at libc-call granularity; history oracle (exactly-once, whole, real-time order)",
          "Runs 1..8 real sender threads/sim-processes against every receiver style under a seeded scheduler that pre-empts at every packet transmission; the recorded history is checked for exactly-once, whole-message and happens-before order. Sampling of schedules, not proof.", "5/C02"),
+ "C03": ("exploration", "deterministic simulation: seeded histories + schedules; interval (invoke/return) lineage model of sender handles as oracle",
+         "Seeded histories of clone/move/embed/extract/drop/drop-carrier over <=6 channels run on real threads and sim-processes under a seeded scheduler; every 'disconnected', 'empty' and blocked-at-quiescence verdict of the observers is judged against a handle-lineage model that uses only certain (invoke/return-ordered) facts. Sampling, not proof.", "5/C03"),
+ "C09": ("exploration", "deterministic simulation: seeded schedule search with receiver drop / process crash / in-transit destruction placed at every packet boundary; quiescence (hang) detection",
+         "A stream of sends races with the receiver being dropped, its sim-process crashing (optionally at the k-th system call of a receive), or being destroyed/unpacked while in transit; oracle: no Ok after the receiver certainly ceased to exist, no sender blocked at quiescence, no SIGPIPE, all sends Ok and delivered for a receiver in transit. Sampling, not proof.", "5/C09"),
 }
 PENDING = "check not built yet (work in progress in this session; will be claimed once its simulation scenario exists)"
 
